@@ -63,7 +63,7 @@ def has(texts, t):
 _REPO = [None]
 
 
-def expect(r, key, fi, guards, accepted, errcls, what, measure=None):
+def expect(r, key, fi, guards, accepted, errcls, what, measure=None, domain=None):
     accepted = [canon_text(a) for a in accepted]
     for g, cls, n in guards:
         if g in accepted:
@@ -96,6 +96,11 @@ def expect(r, key, fi, guards, accepted, errcls, what, measure=None):
     if near:
         from ..rules import equiv as _eq
         v_ = _eq(near[0][0], accepted[0])
+        if v_ is not True and domain and _eq(near[0][0], accepted[0], domain=domain) is True:
+            # the same refusals over the values the measured term can take
+            v_ = True
+            r.ctx.explain(fi, near[0][1], '%s: `%s` refuses the same values as `%s` where %s' % (key, near[0][0], accepted[0],
+                          ', '.join('%s >= %s' % (t_, lo_) for t_, (lo_, hi_) in sorted(domain.items()))))
         if v_ is True:
             r.ok(key, common.site_of(fi, near[0][1]), '%s: `%s`' % (what, near[0][0]))
             return near[0][1]
@@ -347,7 +352,9 @@ def rule_helpers(ctx, repo):
     want = "self.hash == %r and self.n == 4294967295" % (b'\x00' * 32,)
     r.check(rets == [want], 'is_null', nl.site, 'hash all zero and n = 0xffffffff', 'COutPoint.is_null is %s' % rets)
     ls = repo.get_function(CORE + 'GetLegacySigOpCount')
-    accs = sorted(norm(n) for n in ast.walk(ls.node) if isinstance(n, ast.AugAssign))
+    def _falsy(t_):
+        return re.sub(r'GetSigOpCount\((0|None|0x0|fAccurate=False)\)', 'GetSigOpCount(False)', t_)
+    accs = sorted(_falsy(norm(n)) for n in ast.walk(ls.node) if isinstance(n, ast.AugAssign))
     loops = sorted(norm(n.iter) for n in ast.walk(ls.node) if isinstance(n, ast.For))
     # the summed terms as (sequence, element term with the bound variable written x), for loops and sum(<generator>) alike
     terms = set()
@@ -355,7 +362,7 @@ def rule_helpers(ctx, repo):
         if isinstance(n, ast.For) and isinstance(n.target, ast.Name):
             for a_ in ast.walk(n):
                 if isinstance(a_, ast.AugAssign) and isinstance(a_.op, ast.Add):
-                    terms.add((norm(n.iter), re.sub(r'\b%s\b' % re.escape(n.target.id), 'x', norm(a_.value))))
+                    terms.add((norm(n.iter), _falsy(re.sub(r'\b%s\b' % re.escape(n.target.id), 'x', norm(a_.value)))))
         if isinstance(n, ast.Call) and norm(n.func) == 'sum' and len(n.args) == 1 and isinstance(n.args[0], (ast.GeneratorExp, ast.ListComp)):
             g_ = n.args[0]
             if len(g_.generators) == 1 and not g_.generators[0].ifs and isinstance(g_.generators[0].target, ast.Name):
